@@ -66,11 +66,21 @@ at the top-level directory.
     ===================================================================== 
 </pre>
 */
+#ifdef SLU_VERIF
+/* verification hook H1: non-zero entries override the compiled-in tuning values */
+int slu_verif_ienv[8] = {0, 0, 0, 0, 0, 0, 0, 0};
+#endif
+
 int
 sp_ienv(int ispec)
 {
     int i;
     extern int input_error(char *, int *);
+
+#ifdef SLU_VERIF
+    if (ispec >= 1 && ispec <= 7 && slu_verif_ienv[ispec] != 0)
+	return slu_verif_ienv[ispec];
+#endif
 
     switch (ispec) {
 	case 1: return (20);
